@@ -8,6 +8,7 @@ From MomoCommon Require Import GenPrelude.
 From C10 Require Import Machine Merge MergeProofs FastMerge.
 From C10 Require Gen_StdInsert Gen_StdInsertU Gen_StdInsertN Gen_MergeTo Gen_TreeSwap Gen_ExtraCheckT Gen_ExtraCheckH.
 Import ListNotations.
+Set Default Timeout 120.   (* robustness: no tactic may run away on a regenerated term *)
 Local Open Scope Z_scope.
 
 (* ---------------------------------------------------------------- insert(hint, node&&) *)
